@@ -1304,7 +1304,17 @@ mod ir_builder {
                     ))
                 }));
 
-            for block in fn_decl.blocks {
+            // A value may be used in a block that is printed before the block that defines it
+            // (the defining block only has to dominate the use).  So make all the block
+            // arguments known up front and build every block after its dominators.
+            for block in &fn_decl.blocks {
+                for (idx, (_, _, name, _)) in block.args.iter().enumerate() {
+                    arg_map.entry(name.clone()).or_insert_with(|| {
+                        named_blocks[&block.label].get_arg(context, idx).unwrap()
+                    });
+                }
+            }
+            for block in Self::blocks_in_dominance_order(fn_decl.blocks) {
                 for (idx, (_, _, name, _)) in block.args.iter().enumerate() {
                     arg_map.insert(
                         name.clone(),
@@ -1320,6 +1330,124 @@ mod ir_builder {
                 );
             }
             Ok(())
+        }
+
+        /// Reorder `blocks` (given in textual order, entry first) so that every block comes after
+        /// the blocks that dominate it.  The textual order is kept wherever it already has that
+        /// property.
+        fn blocks_in_dominance_order(blocks: Vec<IrAstBlock>) -> Vec<IrAstBlock> {
+            let index_of: HashMap<&String, usize> = blocks
+                .iter()
+                .enumerate()
+                .map(|(idx, block)| (&block.label, idx))
+                .collect();
+            let succs: Vec<Vec<usize>> = blocks
+                .iter()
+                .map(|block| {
+                    let labels = match block.instructions.last().map(|ins| &ins.op) {
+                        Some(IrAstOperation::Br(to, _)) => vec![to],
+                        Some(IrAstOperation::Cbr(_, true_to, _, false_to, _)) => {
+                            vec![true_to, false_to]
+                        }
+                        _ => vec![],
+                    };
+                    labels
+                        .into_iter()
+                        .filter_map(|label| index_of.get(label).copied())
+                        .collect()
+                })
+                .collect();
+
+            // Post-order numbering of the reachable blocks, by an iterative DFS over
+            // (block index, index of the next successor to visit).
+            let mut po_number: Vec<Option<usize>> = vec![None; blocks.len()];
+            let mut post_order = Vec::with_capacity(blocks.len());
+            let mut visited = vec![false; blocks.len()];
+            let mut stack: Vec<(usize, usize)> = Vec::new();
+            if !blocks.is_empty() {
+                visited[0] = true;
+                stack.push((0, 0));
+            }
+            while let Some((block_idx, succ_idx)) = stack.pop() {
+                if let Some(&next) = succs[block_idx].get(succ_idx) {
+                    stack.push((block_idx, succ_idx + 1));
+                    if !visited[next] {
+                        visited[next] = true;
+                        stack.push((next, 0));
+                    }
+                } else {
+                    po_number[block_idx] = Some(post_order.len());
+                    post_order.push(block_idx);
+                }
+            }
+
+            // Immediate dominators (Cooper, Harvey, Kennedy).
+            let mut preds: Vec<Vec<usize>> = vec![Vec::new(); blocks.len()];
+            for (block_idx, block_succs) in succs.iter().enumerate() {
+                if visited[block_idx] {
+                    for succ in block_succs {
+                        preds[*succ].push(block_idx);
+                    }
+                }
+            }
+            let mut idom: Vec<Option<usize>> = vec![None; blocks.len()];
+            if !blocks.is_empty() {
+                idom[0] = Some(0);
+            }
+            let mut changed = true;
+            while changed {
+                changed = false;
+                for &block_idx in post_order.iter().rev().skip(1) {
+                    let mut new_idom: Option<usize> = None;
+                    for &pred in &preds[block_idx] {
+                        if idom[pred].is_none() {
+                            continue;
+                        }
+                        new_idom = Some(match new_idom {
+                            None => pred,
+                            Some(mut other) => {
+                                let mut pred = pred;
+                                while pred != other {
+                                    while po_number[pred] < po_number[other] {
+                                        pred = idom[pred].unwrap();
+                                    }
+                                    while po_number[other] < po_number[pred] {
+                                        other = idom[other].unwrap();
+                                    }
+                                }
+                                pred
+                            }
+                        });
+                    }
+                    if new_idom.is_some() && idom[block_idx] != new_idom {
+                        idom[block_idx] = new_idom;
+                        changed = true;
+                    }
+                }
+            }
+
+            // Textual order, except that a block is preceded by its not yet placed dominators.
+            let mut placed = vec![false; blocks.len()];
+            let mut order = Vec::with_capacity(blocks.len());
+            for block_idx in 0..blocks.len() {
+                let mut chain = Vec::new();
+                let mut cur = block_idx;
+                while !placed[cur] {
+                    placed[cur] = true;
+                    chain.push(cur);
+                    match idom[cur] {
+                        Some(dominator) => cur = dominator,
+                        None => break,
+                    }
+                }
+                order.extend(chain.into_iter().rev());
+            }
+
+            let mut blocks: Vec<Option<IrAstBlock>> = blocks.into_iter().map(Some).collect();
+            order
+                .into_iter()
+                .map(|idx| blocks[idx].take().unwrap())
+                .collect()
         }
 
         fn add_block_instructions(
